@@ -226,6 +226,137 @@ class ShareGen(object):
         return prog
 
 
+# ---- needs: every need form of go / let / aux conditions
+NEED_CMP = ["==", "!=", "<", "<=", ">=", ">"]
+NEED_STATUS = ["readied", "started", "running", "stopped", "aborted"]
+
+
+class NeedGen(object):
+    """Scripts about transition / entry / conditional-aux conditions.  One house with an active framer `f` (frames a, b, z),
+    auxiliary framers x1, x2 and a moot framer m; every need form of Builder.makeNeed — done (plain tasker, `aux` keyword
+    present or absent, any/all, each optional `in frame [me|name]` / `in framer [me|name]` clause present, nameless or
+    named), status, update/change markers (`in frame [name]`, `by marker`, both orders), framer state (elapsed/recurred
+    with and without `re`), boolean, direct and indirect comparisons with optional tolerance, `not` — alone and in
+    conjunctions of up to three needs, at every position, in `go`, `let` and `aux … if` lines."""
+
+    FRAMES = (["a", "b", "z", "me"], ["x1a", "nope"])         # usual, odd (another framer's frame, dangling)
+    FRAMERS = (["f", "me"], ["x1", "x2", "nope"])
+    TASKERS = ["x1", "x2", "f", "m", "nope"]
+    PATHS = [".a.b", ".c", ".nowhere.n", "k of me", "k of framer", "k of frame", "k of frame b", "k of framer x1"]
+
+    def __init__(self, rng):
+        self.r = rng
+
+    def opt_name(self, pool, p_none=0.35, odd=0.12):
+        """an optional name after `in frame` / `in framer` / `re`: absent, a usual one, or an odd one"""
+        r = self.r
+        k = r.random()
+        if k < p_none:
+            return []
+        return [r.choice(pool[0] if k < 1 - odd else pool[1])]
+
+    def state(self):
+        r = self.r
+        path = r.choice(self.PATHS if r.random() < 0.8 else [".a.b"]).split(" ")
+        k = r.random()
+        field = [] if k < 0.5 else [r.choice(["x", "y", "x", "y", "value", "zz"]), "in"]
+        return field + path
+
+    def done(self):
+        r = self.r
+        k = r.random()
+        head = [r.choice(["any", "all"])] if k < 0.2 else (["aux"] if r.random() < 0.4 else []) + \
+            [r.choice(self.TASKERS[:2] if r.random() < 0.8 else self.TASKERS)]
+        ins = []
+        k = r.random()
+        if k < 0.3:
+            pass
+        elif k < 0.6:
+            ins = ["in", "frame"] + self.opt_name(self.FRAMES)
+        elif k < 0.8:
+            ins = ["in", "framer"] + self.opt_name(self.FRAMERS)
+        else:
+            ins = ["in", "frame"] + self.opt_name(self.FRAMES) + ["in", "framer"] + self.opt_name(self.FRAMERS)
+        return head + ins + ["is", "done"]
+
+    def status(self):
+        r = self.r
+        return [r.choice(self.TASKERS[:3] if r.random() < 0.85 else self.TASKERS)] + ["is", r.choice(NEED_STATUS)]
+
+    def marker(self):
+        r = self.r
+        path = r.choice(self.PATHS).split(" ")
+        clauses = []
+        if r.random() < 0.6:
+            clauses.append(["in", "frame"] + self.opt_name(self.FRAMES, p_none=0.5))
+        if r.random() < 0.5:
+            clauses.append(["by", r.choice(["m1", '"m 2"', "frame", "and"]) if r.random() < 0.15 else r.choice(["m1", "m2"])])
+        r.shuffle(clauses)
+        return path + ["is", r.choice(["updated", "changed"])] + [t for c in clauses for t in c]
+
+    def goal(self):
+        r = self.r
+        k = r.random()
+        if k < 0.45:
+            return [r.choice(["1", "2.5", "-3", "True", '"s"', "0x10"])]
+        if k < 0.6:
+            return ["goal"]
+        return self.state()
+
+    def tolerance(self):
+        r = self.r
+        return ["+-", r.choice(["0.1", "1", "-2", "x", "1j"])] if r.random() < 0.3 else []
+
+    def framer_state(self):
+        r = self.r
+        st = [r.choice(["elapsed", "recurred"])]
+        if r.random() < 0.5:
+            st += ["re"] + self.opt_name(self.FRAMERS, p_none=0.4)
+        return st + [r.choice(NEED_CMP)] + self.goal() + self.tolerance()
+
+    def need(self):
+        r = self.r
+        k = r.randrange(8)
+        n = (self.done() if k in (0, 1) else self.status() if k == 2 else self.marker() if k in (3, 4) else
+             self.framer_state() if k == 5 else self.state() if k == 6 and r.random() < 0.4 else
+             self.state() + [r.choice(NEED_CMP)] + self.goal() + self.tolerance())
+        return (["not"] if r.random() < 0.15 else []) + n
+
+    def condition(self):
+        r = self.r
+        needs = [self.need() for _ in range(r.choice([1, 1, 2, 2, 3]))]
+        out = []
+        for i, n in enumerate(needs):
+            out += (["and"] if i else []) + n
+        return out
+
+    def lines(self, auxes):
+        r = self.r
+        out = []
+        for _ in range(r.randrange(1, 4)):
+            k = r.random()
+            if k < 0.5 or (k >= 0.75 and not auxes):
+                out.append(["go", r.choice(["next", "me", "b", "z"] if auxes else ["next", "me"]), "if"] + self.condition())
+            elif k < 0.75:
+                out.append(["let"] + (["me"] if r.random() < 0.6 else []) + ["if"] + self.condition())
+            else:
+                out.append(["aux"] + (r.choice([["m", "as", "mine"], ["m", "as", "c1"]]) if r.random() < 0.06
+                                      else [r.choice(auxes)]) + ["if"] + self.condition())
+        return out
+
+    def program(self):
+        r = self.r
+        prog = [["house", "h"], ["init", ".a.b", "with", "x", "1", "y", "2"], ["init", ".c", "with", "3"],
+                ["framer", "f", "be", "active", "first", "a"],
+                ["frame", "a"], ["aux", "x1"]] + ([["aux", "x2"]] if r.random() < 0.7 else []) + self.lines(["x2", "x1"])
+        prog += [["frame", "b"], ["aux", "x2"]] + ([["aux", "x1"]] if r.random() < 0.7 else []) + self.lines(["x2", "x1"])
+        prog += [["frame", "z"]]
+        prog += [["framer", "x1", "be", "aux", "first", "x1a"], ["frame", "x1a"]] + (self.lines([]) if r.random() < 0.3 else [])
+        prog += [["frame", "x1b"], ["framer", "x2", "be", "aux", "first", "x2a"], ["frame", "x2a"],
+                 ["framer", "m", "be", "moot", "first", "ma"], ["frame", "ma"]]
+        return prog
+
+
 class CHECK(core.Check):
     PROPERTY = "C14"
     LEAN_MODULES = ["IofloModel.Props.C14"]
@@ -239,10 +370,13 @@ class CHECK(core.Check):
             "as a script built by the real Builder under a 2 s limit; (b) scripts: generated runnable programs and the "
             "shipped example plans with 1-3 random token/line mutations (delete, insert, replace from a pool of reserved "
             "words, verbs, option words, odd numbers such as 1j/inf/nan/1e400, broken paths; duplicate, delete, move a "
-            "line), built under a 6 s limit; (c) share-reference scripts (35% of the scripts): shares created with known fields, then "
+            "line), built under a 6 s limit; (c) share-reference scripts (30% of the scripts): shares created with known fields, then "
             "init-from / server-for / loggee / put / copy / set / inc / do from,for,qua,with,per,cum / bid-at / go,let-if given "
             "references to a share that has the named field, lacks it, has more, holds `value`, is a node, or does not exist, "
-            "with and without the `fields in` clause on either side, absolute and relative. Non-trivial = a script that is rejected or does not build normally "
+            "with and without the `fields in` clause on either side, absolute and relative; (d) need scripts (25%): every need form "
+            "(done with/without `aux`, any/all, `in frame [name]`, `in framer [name]`; status; update/change with `in frame "
+            "[name]` and `by marker` in both orders; elapsed/recurred with/without `re`; boolean, direct, indirect with "
+            "tolerance; `not`) alone and in conjunctions of up to three at every position in go / let / aux-if lines. Non-trivial = a script that is rejected or does not build normally "
             "(any outcome other than 'ok'), or a link structure with at least one link; distinct by text.")
     TRUSTED = ["correspondence (a): the scripts really exercise the loops the model describes (frames resolved in definition "
                "order; `under` sets the primary under; a clone has the moots of its original)",
@@ -332,11 +466,14 @@ class CHECK(core.Check):
         plans = [fb.dispatched(t) for name, t in fb.example_plans() if "load" not in t]
         for i in range(n - n_links):
             k = rng.random()
-            if k < 0.35:
+            if k < 0.3:
                 prog = ShareGen(rng).program()
                 n_mut = rng.choice([0, 0, 1])
+            elif k < 0.55:
+                prog = NeedGen(rng).program()
+                n_mut = rng.choice([0, 0, 0, 1])
             else:
-                prog = [list(c) for c in (rng.choice(plans) if k < 0.55 else fb.gen_program(rng))]
+                prog = [list(c) for c in (rng.choice(plans) if k < 0.7 else fb.gen_program(rng))]
                 n_mut = rng.randrange(1, 4)
             for _ in range(n_mut):
                 ci = rng.randrange(len(prog))
